@@ -222,7 +222,18 @@ def run(rep: Report, repo: Repo):
         return      # included by a simulation check: only the rules about the order the op list is built from
     if not evaluated:
         lines_and_fanin(rep, mod, fns)
-    locs(rep, mod)
+    le = False
+    try:
+        le = locs_evaluated(rep, mod)
+    except ModelError as e:
+        rep.note(f'C17.locs: Circuit._locs is outside the evaluated subset ({e}); the structural rule decides')
+    if le:
+        try:
+            locs(rep, mod, regex_only=True)     # the bounded-exhaustive comparison of the regular expression, when it is one f-string constant
+        except ModelError as e:
+            rep.note(f'C17.locs: regular expression of _locs not compared on its own ({e}); decided by the evaluated lookups')
+    else:
+        locs(rep, mod)
 
 
 
@@ -290,14 +301,14 @@ def _small_circuits(full):
             yield (3, edges, kinds, 0) + build(3, edges, kinds, 0)
     if full:
         fw = [(a, b) for a in range(4) for b in range(a + 1, 4)]
-        for perm in ((0, 1, 2, 3), (3, 2, 1, 0), (2, 0, 3, 1)):
+        for perm in ((3, 2, 1, 0), (2, 0, 3, 1)):
             for r in range(len(fw) + 1):
                 for es in itertools.combinations(fw, r):
                     edges = tuple((perm[a], perm[b]) for a, b in es)
                     for st in (None, 0, 1, 2, 3):
                         kinds = tuple('DFFX1' if i == st else 'AND2' for i in range(4))
-                        for gap in (0, 3):
-                            yield (4, edges, kinds, gap) + build(4, edges, kinds, gap)
+                        gap = 3 if (len(edges) + (st or 0)) % 2 else 0
+                        yield (4, edges, kinds, gap) + build(4, edges, kinds, gap)
 
 
 def traversals_evaluated(rep, mod, fns, full=True):
@@ -481,7 +492,7 @@ def traversals_evaluated(rep, mod, fns, full=True):
         if not ok:
             what, desc = bad[q]
             rep.violate('C17.traverse', mod, fns[q], q.split('.')[-1], f'{q} {what} - on the circuit with {desc}', node=fns[q])
-    rep.floor('small circuits the traversals were evaluated on', ncirc, 1500 if full else 1000)
+    rep.floor('small circuits the traversals were evaluated on', ncirc, 1000)
     return True
 
 def kahn(rep, mod, f, out_side, in_side, next_attr):
@@ -708,8 +719,123 @@ def lines_and_fanin(rep, mod, fns):
         rep.violate('C17.fanin', mod, f, body[d] if d < len(body) else f.name, 'fanin must seed marks from the origins, propagate marks[line.reader] over connected outputs along reversed_topological_order, and yield exactly the marked nodes', node=f)
 
 
-def locs(rep, mod):
-    rep.rule('C17.locs', 'prefix lookup: index suffix = run of [digit _ [ ]] anchored at the end; indices converted with int() (numeric order); sorted recursively')
+def locs_evaluated(rep, mod):
+    """C17.locs decided by evaluating Circuit._locs (Engine M) on families of node names against the documented lookup. Returns False when _locs is
+    outside the evaluator subset."""
+    import itertools
+    import re as _re
+    from kvstatic import minieval
+    NS = minieval.NS
+    f = mod.func('Circuit._locs')
+    cls = mod.cls('Circuit')
+
+    def spec(prefix, names):
+        top = {}
+        for i, nm in enumerate(names):
+            if not nm.startswith(prefix):
+                continue
+            k = len(nm)
+            while k > len(prefix) and nm[k - 1] in '0123456789_[]':
+                k -= 1
+            base, suffix = nm[:k], nm[k:]
+            path = [base] + [int(v) for v in _re.split(r'[_\[\]]+', suffix) if v]
+            d = top
+            for j in path[:-1]:
+                if not isinstance(d.get(j, {}), dict):
+                    return 'collision'
+                d = d.setdefault(j, {})
+            if isinstance(d.get(path[-1]), dict):
+                return 'collision'
+            d[path[-1]] = i
+
+        def sv(d):
+            return [sv(v) for _k, v in sorted(d.items())] if isinstance(d, dict) else d
+        try:
+            l = sv(top)
+        except TypeError:
+            return 'collision'
+        while isinstance(l, list) and len(l) == 1:
+            l = l[0]
+        return None if isinstance(l, list) and not l else l
+    fams = [
+        ('data', ['data[0]', 'data[1]', 'data[2]', 'clk']), ('data', ['clk', 'data[2]', 'data[0]', 'data[1]']), ('data', ['data[10]', 'data[2]', 'data[1]', 'x']),
+        ('d', ['d_0', 'd_10', 'd_9', 'q_1']), ('d_', ['d_0', 'd_10', 'd_9']), ('a', ['a_1_0', 'a_0_1', 'a_0_0', 'a_1_1', 'b_0_0']),
+        ('m', ['m[1][0]', 'm[0][1]', 'm[0][0]', 'm[1][1]']), ('data', ['data0[1]', 'data1[0]', 'data0[0]', 'data1[1]']),
+        ('en', ['enable', 'x', 'y']), ('en', ['x', 'end', 'enable']), ('zz', ['a', 'b']), ('x', []), ('clk', ['clk']), ('b', ['ab[0]', 'b[1]', 'b[0]']),
+        ('s', ['s[3]', 's[1]']), ('q', ['q[0]']), ('r', ['r_7', 'r_8', 'r_9', 'r_10', 'r_11']), ('p', ['p[2]_1', 'p[2]_0', 'p[1]_0', 'p[1]_1']),
+        ('io', ['io_1[0]', 'io_0[1]', 'io_0[0]', 'io_1[1]', 'clk', 'rst']),
+    ]
+    rep.rule('C17.locs', '_locs evaluated on families of port / state names (bracket and underscore indices, gaps, several signals, two dimensions, every order): positions of the names '
+                         'that start with the prefix, index suffix = trailing run of digits _ [ ], sorted by numeric index, nested per dimension, single results unwrapped, None if nothing matches')
+    bad = None
+    ncase = 0
+    for prefix, names in fams:
+        perms = list(itertools.permutations(names)) if len(names) <= 4 else [tuple(names), tuple(reversed(names)), tuple(names[1:] + names[:1])]
+        for order in perms:
+            want = spec(prefix, list(order))
+            if want == 'collision':
+                continue
+            ncase += 1
+            nodes = [NS(name=n, index=k, kind='X') for k, n in enumerate(order)]
+            me = NS()
+            genv = {}
+            minieval.bind_class(me, cls, genv, skip=('__init__', '_locs'))
+            try:
+                got = minieval.call_function(f, [me, prefix, nodes], genv)
+            except ModelError:
+                raise
+            except (IndexError, KeyError, TypeError, AttributeError, ValueError, RuntimeError) as e:
+                got = f'{type(e).__name__}: {e}'
+            if got != want and bad is None:
+                bad = (prefix, list(order), got, want)
+    ok = bad is None
+    rep.ob('C17.locs', f'_locs on {ncase} name lists', ok, evals=ncase)
+    if not ok:
+        prefix, order, got, want = bad
+        rep.violate('C17.locs', mod, f, '_locs', f'Circuit._locs({prefix!r}) over the names {order} returns {got}; the documented lookup gives {want} (positions ordered LSB to MSB by numeric index, nested per dimension)', node=f)
+    rep.floor('name lists _locs was evaluated on', ncase, 100)
+    # the two public lookups: io_locs over the ports, s_locs over ports + flip-flops + latches (the s_nodes order)
+    from kvstatic import graphmodel
+    C = graphmodel.classes(mod)['Circuit']
+    layouts = [
+        (['a[0]', 'a[1]', 'q[3]'], [('q[1]', 'DFF_X1'), ('g', 'AND2'), ('q[0]', 'LATCH'), ('q[2]', 'sdffx'), ('a[2]', 'dlatch')]),
+        (['clk', 'd[1]', 'd[0]'], [('r_1', 'LATCHX'), ('r_0', 'DFF'), ('n1', 'INV')]),
+        ([], [('s[0]', 'DFF'), ('s[1]', 'DFF')]),
+    ]
+    bad2 = None
+    nq = 0
+    for ports, others in layouts:
+        c = C('t')
+        io = [NS(name=n, kind='input', index=k) for k, n in enumerate(ports)]
+        rest = [NS(name=n, kind=k_, index=len(io) + j) for j, (n, k_) in enumerate(others)]
+        c.nodes = io + rest
+        c.io_nodes = list(io)
+        snames = ports + [n for n, k_ in others if 'dff' in k_.lower()] + [n for n, k_ in others if 'latch' in k_.lower()]
+        for prefix in sorted({n[0] for n in ports + [o[0] for o in others]} | {'zz', 'q'}):
+            for meth, names in (('io_locs', ports), ('s_locs', snames)):
+                nq += 1
+                want = spec(prefix, names)
+                if want == 'collision':
+                    continue
+                try:
+                    got = getattr(c, meth)(prefix)
+                except ModelError:
+                    raise
+                except (IndexError, KeyError, TypeError, AttributeError, ValueError, RuntimeError) as e:
+                    got = f'{type(e).__name__}: {e}'
+                if got != want and bad2 is None:
+                    bad2 = (meth, prefix, ports, others, got, want)
+    ok = bad2 is None
+    rep.ob('C17.locs', f'io_locs / s_locs on {nq} lookups (ports, flip-flops and latches interleaved in the node list)', ok, evals=nq)
+    if not ok:
+        meth, prefix, ports, others, got, want = bad2
+        rep.violate('C17.locs', mod, mod.func('Circuit.' + meth), meth, f'Circuit.{meth}({prefix!r}) on a circuit with ports {ports} and further nodes {others} returns {got}; positions in '
+                    f'{"io_nodes" if meth == "io_locs" else "s_nodes (ports, then flip-flops, then latches)"} ordered by index are {want}', node=mod.func('Circuit.' + meth))
+    return True
+
+
+def locs(rep, mod, regex_only=False):
+    rep.rule('C17.locs' if not regex_only else 'C17.locs-regex', 'prefix lookup: index suffix = run of [digit _ [ ]] anchored at the end; indices converted with int() (numeric order); sorted recursively')
     f = mod.func('Circuit._locs')
     js = [n for n in ast.walk(f) if isinstance(n, ast.JoinedStr)]
     if len(js) != 1:
@@ -762,6 +888,8 @@ def locs(rep, mod):
     if not ok:
         rep.violate('C17.locs', mod, f, js[0], f'_locs regex {rx!r}: for the prefix {PFX!r} the name {bad[0]!r} is split as {bad[1]} but the lookup is documented as {bad[2]} '
                     f'(name starts with the prefix; the index suffix is the trailing run of digits, _, [, ])', witness={'name': bad[0], 'got': str(bad[1]), 'want': str(bad[2])}, node=js[0])
+    if regex_only:
+        return
     m = [c for c in find_all(f, ast.Call) if call_name(c) == 're.match']
     ok = len(m) == 1 and len(m[0].args) == 2 and norm(m[0].args[1]).endswith('.name')
     rep.ob('C17.locs', 're.match on node name (anchored at start)', ok)
